@@ -168,14 +168,21 @@ def copy_tlc_jobs(ctx):
     jobs = [('mc:copy-pack-2x2', lambda: copy_mc(ctx, 'copy-pack-2x2', sd.consts('file', MaxTxn=2, MaxRecs=2, AtomVals=('v1',), **mc), 'NextWithPack')),
             ('mc:copy-undo-3x1', lambda: copy_mc(ctx, 'copy-undo-3x1', sd.consts('file', MaxTxn=3, MaxRecs=1, AtomVals=('v1', 'v2'), **mc), 'NextUndo'))]
     if not q:
-        jobs += [('mc:copy-pack-3x1', lambda: copy_mc(ctx, 'copy-pack-3x1', sd.consts('file', MaxTxn=3, MaxRecs=1, AtomVals=('v1', 'v2'), **mc), 'NextWithPack', timeout=1800)),
+        jobs += [('mc:copy-pack-3x1', lambda: copy_mc(ctx, 'copy-pack-3x1', sd.consts('file', MaxTxn=3, MaxRecs=1, AtomVals=('v1',), **mc), 'NextWithPack', timeout=1800)),
                  ('mc:copy-undo-4x1', lambda: copy_mc(ctx, 'copy-undo-4x1', sd.consts('file', MaxTxn=4, MaxRecs=1, AtomVals=('v1', 'v2'), **mc), 'NextUndo', timeout=1800))]
-    n = 60 if q else 1500
+    n = 60 if q else 800
     for k, (kind, nxt, cls, refs, o) in enumerate(PLAN):
         c = sd.consts(kind, Cls=cls, RefSets=refs, **BIG)
         tag = plan_tag(kind, nxt, o)
         jobs.append(('sim:' + tag, (lambda tag=tag, c=c, k=k, nxt=nxt: copy_simulate(ctx, tag, c, num=n, depth=70, seed=ctx.seed + 171 + k, next_=nxt))))
     return jobs
+
+
+def eval_scripts(ctx):
+    from ..drivers import scripts as sc
+    scripts = copy_scripts(random.Random(ctx.seed * 7919 + 17), 40 if ctx.quick else 300)
+    cs = sd.consts('file', **dict(BIG, MaxTxn=14, MaxRecs=5, MaxClock=8, Cls='MCClsPlain', RefSets='AllRefs'))
+    return cs, sc.evaluate(ctx, 'copy', scripts, cs)
 
 
 def part_copy(ctx, done, replay=True):
@@ -196,10 +203,7 @@ def part_copy(ctx, done, replay=True):
         tags += [tag] * len(files)
         if kind == 'file' and not o.get('blobs'):
             sims[tag], consts_of[tag] = files, c
-    from ..drivers import scripts as sc
-    scripts = copy_scripts(random.Random(ctx.seed * 7919 + 17), 40 if q else 600)
-    cs = sd.consts('file', **dict(BIG, MaxTxn=14, MaxRecs=5, MaxClock=8, Cls='MCClsPlain', RefSets='AllRefs'))
-    behs = sc.evaluate(ctx, 'copy', scripts, cs)
+    cs, behs = done['scripts']
     sims['scripts'], consts_of['scripts'] = behs, cs
     if not replay:
         return None, sims, consts_of
@@ -232,8 +236,7 @@ def scan_configs(q):
     real = dict(CHUNK=8096, LOOK=8, Extra='{46, 47}', Fills='{"zero", "ff"}', Starts='{4, 8090}')
     if q:
         return [('small', dict(small, Lens='{0, 3, 8, 9, 10, 12, 13, 17, 20, 21, 24, 25, 29}', MaxDots=2)),
-                ('real', dict(real, Lens='{8095, 8097, 8105, 16200, 16210}', Near=9, MaxDots=1)),
-                ('real2', dict(real, Lens='{8100, 8109, 16201}', Near=2, MaxDots=2))]
+                ('real', dict(real, Lens='{8095, 8097, 8105, 16201, 16210}', Near=4, MaxDots=2))]
     return [('small', dict(small, Lens='{' + ', '.join(str(i) for i in range(31)) + '}', MaxDots=2)),
             ('small3', dict(small, Lens='{9, 13, 21, 25}', MaxDots=3)),
             ('real', dict(real, Lens='{8095, 8096, 8097, 8105, 16200, 16210, 24300}', Near=12, MaxDots=1)),
@@ -390,6 +393,7 @@ def part_recover(ctx, sim_files, consts_of):
     # variety first: undo back-pointers, un-creations, packed prefixes, files longer than one read chunk, short files
     feats = (lambda b: b['backs'] > 0, lambda b: b['packed'] > 0, lambda b: len(b['data']) > 9000, lambda b: b['zeros'] > 0,
              lambda b: len(b['data']) <= 2500 and b['ntx'] >= 4, lambda b: b['backs'] > 1 and len(b['data']) > 9000)
+    built.sort(key=lambda b: -b['ntx'])
     sources = []
     while len(sources) < want and built:
         f = feats[len(sources) % len(feats)]
@@ -400,11 +404,12 @@ def part_recover(ctx, sim_files, consts_of):
         raise RuntimeError('only %d usable source files' % len(sources))
     # 2. damages, enumerated relative to the item boundaries of each file
     jobs, files = [], []
-    total = 0
+    total = every_n = 0
     for i, b in enumerate(sources):
         txns = rv.parse_fs(b['data'])
         files.append(rv.extents(txns))
-        every = (not q) and len(b['data']) <= 2500
+        every = (not q) and len(b['data']) <= 2500 and every_n < 4
+        every_n += every
         dm = rv.enumerate_damages(txns, len(b['data']), every, rng, budget=700 if q else 6000)
         total += len(dm)
         model = (b['obs'], b['hist'], b['consts'])
@@ -416,7 +421,7 @@ def part_recover(ctx, sim_files, consts_of):
            'file_sizes': [len(b['data']) for b in sources], 'file_txns': [b['ntx'] for b in sources],
            'files_with_backpointers': sum(1 for b in sources if b['backs']), 'files_packed': sum(1 for b in sources if b['packed']),
            'files_with_uncreation': sum(1 for b in sources if b['zeros']),
-           'by_kind': {}, 'every_byte_files': sum(1 for b in sources if (not q) and len(b['data']) <= 2500)}
+           'by_kind': {}, 'every_byte_files': every_n}
     batches = par.chunks(list(range(len(results))), max(1, len(results) // 20000 + 1))
     for bi, idx in enumerate(batches):
         r, verdicts = validate_runs(ctx, 'b%d' % bi, files, [results[i]['run'] for i in idx])
@@ -469,7 +474,9 @@ def run(ctx):
     clock.install()
     # every TLC run that needs only the specifications is started at once (helper threads; all joined before
     # the replay workers are forked)
-    jobs = copy_tlc_jobs(ctx) + [('tool-mc', lambda: tool_mc(ctx))]
+    import time
+    t0 = time.time()
+    jobs = copy_tlc_jobs(ctx) + [('tool-mc', lambda: tool_mc(ctx)), ('scripts', lambda: eval_scripts(ctx))]
     for name, c in scan_configs(ctx.quick):
         for ac, graph in ((False, False), (True, False), (True, True)):
             jobs.append((('scan', name, ac, graph), (lambda name=name, c=c, ac=ac, graph=graph: (c, scan_tlc(ctx, name, c, ac, graph)))))
@@ -477,10 +484,17 @@ def run(ctx):
         futs = [(name, ex.submit(fn)) for name, fn in jobs]
         done = {name: f.result() for name, f in futs}
     ctx.add_tlc('recover-tool-loop', done['tool-mc'])
+    wall = {'tlc_phase': round(time.time() - t0, 1)}
     parts = os.environ.get('ZV_C17_PARTS', 'abc')          # developer knob: run only some parts (never a verdict: exit 2)
+    t1 = time.time()
     cov_a, sims, consts_of = part_copy(ctx, done, replay='a' in parts)
+    wall['copy'] = round(time.time() - t1, 1)
+    t1 = time.time()
     cov_c = part_scan(ctx, {k[1:]: v for k, v in done.items() if isinstance(k, tuple)}) if 'c' in parts else None
+    wall['scan'] = round(time.time() - t1, 1)
+    t1 = time.time()
     cov_b = part_recover(ctx, sims, consts_of) if 'b' in parts else None
+    wall['recover'] = round(time.time() - t1, 1)
     if parts != 'abc':
         ctx.finish({'evaluations': 0, 'samples': ['partial run'], 'states': 1, 'transitions': 1, 'traces_validated_against_impl': 0,
                     'partial': {'copy': cov_a, 'recover': cov_b, 'scan': cov_c}}, ['partial developer run'])
@@ -499,7 +513,7 @@ def run(ctx):
                 '= the run needed scan().  (c) every dot/fill pattern of the ZRecoverScan configurations replayed on the real scan(); '
                 'non-trivial = scan found a position or does not terminate',
         'traces_validated_against_impl': ev,
-        'copy': cov_a, 'recover': cov_b, 'scan': cov_c,
+        'copy': cov_a, 'recover': cov_b, 'scan': cov_c, 'wall_by_part_s': wall,
         'samples': [cov_a['sample'], cov_b['sample'], cov_c['lasso']],
         'exhaustive': False,
     }, ASSUME + ['(b) A1: a transaction whose length field or redundant length is damaged never passes the header checks; A2: no position '
